@@ -330,7 +330,9 @@ def report(pid, tier, seed, results, lemma_res, extra_results, checker_errors, t
     for ob in all_obs:
         if ob.get("kind") == "bounded":
             # bounded stand-ins are reported separately and never counted among the discharged obligations
-            bounded.append({k: ob.get(k) for k in ("function", "name", "status", "seconds", "note")})
+            b = {k: ob.get(k) for k in ("function", "name", "status", "seconds", "note")}
+            b["status"] = {"proved": "no-failing-input-found (bounded, not a proof)", "refuted": "failing input found"}.get(b["status"], b["status"])
+            bounded.append(b)
             per_fn_count[ob.get("function")] = per_fn_count.get(ob.get("function"), 0) + 1
             if ob["status"] == "refuted":
                 hit = [f for f in known if finding_matches(f, pid, ob.get("function"), ob)]
@@ -405,6 +407,14 @@ def report(pid, tier, seed, results, lemma_res, extra_results, checker_errors, t
         "schema (type invariants of the integration objects) as stated in contracts/*_schema.py",
         "machine arithmetic treated as mathematical reals unless the clause is marked FPSTD",
     ]
+    scope = {}
+    try:
+        sys.path.insert(0, os.path.join(ROOT, "tools"))
+        import claims
+
+        scope = claims.CLAIMS.get(pid, {})
+    except Exception:
+        pass
     ev = dict(
         property_id=pid,
         tier=tier,
@@ -424,7 +434,9 @@ def report(pid, tier, seed, results, lemma_res, extra_results, checker_errors, t
             bounded_stand_ins=bounded,
             undecided=[dict(function=u.get("function"), name=u["name"], status=u["status"]) for u in undecided],
             refuted=[dict(function=o.get("function"), name=o["name"], replay_verdict=(o.get("replay") or {}).get("verdict")) for o in violations],
-            explanation="every obligation generated from the current source of the functions under contract, one SMT query each (plus lemma side proofs)",
+            explanation="every obligation generated from the current source of the functions under contract, one SMT query each (plus lemma side proofs); structural clauses are decided on the AST",
+            claimed_scope=scope.get("text", ""),
+            assumed_or_not_decided=scope.get("note", ""),
         ),
         assumptions=sorted(assumptions) + ["wf(model): list elements pairwise distinct, arrays owned by their object, class sets as in the schema"],
         wall_s=round(wall, 2),
